@@ -301,7 +301,9 @@ def report_designs(run, stream, bad, jobs, outs):
                                           reproducer="harness/impl/c15.py kind=design with this job (PYTHONPATH=<repo>)",
                                           failing_cases=len(idxs), failing_groups_in_stream=len(groups)))
     ties = sorted([i for i, c in bad if c == 2], key=lambda i: job_size(jobs[i]))
-    if ties and not groups:
+    # a model/implementation disagreement is reported unless the stream already reports a NEW spec violation
+    # (recorded findings do not hide it)
+    if ties and not fresh:
         i = ties[0]
         run.violation(f"C15:{stream}:tie", f"model and implementation differ on {canon_job(jobs[i])[:300]} (property holds on every explored input)",
                       dict(kind="correspondence-broken", stream=stream, case=jobs[i], impl=outs[i], disagreeing_cases=len(ties),
@@ -427,7 +429,7 @@ def run_cells(run, seed, quick):
         # always include the cells with bracketed port names, then a seeded sample
         special = [i for i in idx if "mux" in lst[i][1] and "b" in lst[i][1]][:10]
         idx = sorted(set(special + r.sample(idx, 150)))
-    outs = core.run_worker_sharded("c15", idx, common=dict(kind="cell"), nproc=8 if quick else 16)
+    outs = core.run_worker_sharded("c15", idx, common=dict(kind="cell"), nproc=min(core.NPROC, 8 if quick else 16))
 
     def ok_ascii(s):
         return all(32 <= ord(ch) < 127 for ch in s)
